@@ -221,6 +221,11 @@ func (p SignatureProof) MergeSparse(s gcrypto.SparseSignatureProof) gcrypto.Sign
 	}
 
 	countBefore := p.sigTree.SigBits.Count()
+	bitsBefore := p.sigTree.SigBits.Clone()
+
+	// Scratch tree that only receives the valid signatures in s,
+	// so that its bit set is exactly the set of keys that s vouches for.
+	offered := p.sigTree.Derive()
 
 	for _, ss := range s.Signatures {
 		if len(ss.KeyID) != 2 {
@@ -248,6 +253,7 @@ func (p SignatureProof) MergeSparse(s gcrypto.SparseSignatureProof) gcrypto.Sign
 			sig := new(blst.P1Affine)
 			sig = sig.Uncompress(ss.Sig)
 			p.sigTree.AddSignature(id, *sig)
+			offered.AddSignature(id, *sig)
 			if p.sigTree.SigBits.Count() > countBefore {
 				res.IncreasedSignatures = true
 			}
@@ -258,12 +264,17 @@ func (p SignatureProof) MergeSparse(s gcrypto.SparseSignatureProof) gcrypto.Sign
 			if sig == nil || !haveSig.Equals(sig) {
 				// Undecodable bytes cannot be the signature we already verified.
 				res.AllValidSignatures = false
+			} else {
+				offered.AddSignature(id, haveSig)
 			}
 		}
 	}
 
 	res.IncreasedSignatures = p.sigTree.SigBits.Count() > countBefore
-	// TODO: how to check WasStrictSuperset?
+
+	// Same definition as the non-aggregating proof:
+	// the valid part of the sparse proof covered strictly more keys than we had.
+	res.WasStrictSuperset = offered.SigBits.IsStrictSuperSet(bitsBefore)
 	return res
 }
 
